@@ -47,10 +47,7 @@ let segs_of s =
       | [code] -> (z_of_int (int_of_string code), [])
       | _ -> failwith "seg") (split_on ',' s)
 
-let do_rd cfgs hx =
-  match read_header (cfg_of cfgs) (unhex hx) with
-  | None -> print_endline "err"
-  | Some (hd, _) ->
+let header_line (hd : header) : string =
     (match hd.hd_frame, hd.hd_scan, sof_flags hd.hd_sofcode with
      | Some fr, Some sc, Some ((prog, lossless), arith) ->
        let h = hd.hd_info in
@@ -73,12 +70,52 @@ let do_rd cfgs hx =
        (* more than 30 ICC markers: the proved-equal closed-form reader (C16_icc_read_fast_correct) *)
        let nicc = List.length (List.filter marker_is_icc hd.hd_saved) in
        Buffer.add_string b (" | " ^ icc_str (if nicc > 30 then read_icc_fast hd.hd_saved else read_icc hd.hd_saved));
-       print_endline (Buffer.contents b)
-     | _ -> print_endline "err")
+       Buffer.contents b
+     | _ -> "err")
+
+let do_rd cfgs hx =
+  match read_header (cfg_of cfgs) (unhex hx) with
+  | None -> print_endline "err"
+  | Some (hd, _) -> print_endline (header_line hd)
+
+(* the header through the suspending-source model for one visibility schedule *)
+let susp_one cfg (stream : z array) (cuts : int list) : string * string =
+  let n = Array.length stream in
+  let cuts = List.filter (fun k -> k < n) cuts in
+  let bounds = cuts @ [n] in
+  let rec pieces lo = function [] -> [] | hi :: t -> (Array.to_list (Array.sub stream lo (max 0 (hi - lo)))) :: pieces (max lo hi) t in
+  match pieces 0 bounds with
+  | [] -> ("err", "")
+  | first :: rest ->
+      (match susp_header (nat_of_int (4 * n + 64)) cfg hstate_init first rest (z_of_int (List.length first)) [] with
+       | None -> ("err", "")
+       | Some (hs, log) ->
+           (header_line (header_of hs), String.concat "" (List.rev_map (fun o -> "." ^ string_of_int (int_of_z o)) log)))
+
+let do_rds cfgs spec hx =
+  let cfg = cfg_of cfgs in
+  let l = unhex hx in
+  let stream = Array.of_list l in
+  let reference = match read_header cfg l with None -> "err" | Some (hd, _) -> header_line hd in
+  let parts =
+    if String.length spec > 6 && String.sub spec 0 6 = "every:" then
+      (match String.split_on_char ':' spec with
+       | [_; lo; hi] -> let lo = int_of_string lo and hi = int_of_string hi in
+           List.filter (fun (_, c) -> List.hd c < Array.length stream) (List.init (max 0 (hi - lo + 1)) (fun i -> (string_of_int (lo + i), [lo + i])))
+       | _ -> [])
+    else List.map (fun p -> (p, List.map int_of_string (String.split_on_char '+' p)))
+        (String.split_on_char '/' (String.sub spec 4 (String.length spec - 4))) in
+  let b = Buffer.create 65536 in
+  List.iteri (fun i (label, cuts) ->
+      let (line, offs) = susp_one cfg stream cuts in
+      if i > 0 then Buffer.add_char b ' ';
+      Buffer.add_string b (Printf.sprintf "%s=%c:%s" label (if line = reference then 'S' else 'D') offs)) parts;
+  print_endline (Buffer.contents b)
 
 let () = iter_lines (fun line ->
   match words line with
   | [ "rd"; cfgs; hx ] -> do_rd cfgs hx
+  | [ "rds"; cfgs; spec; hx ] -> do_rds cfgs spec hx
   | [ "emit"; "icc"; hx ] ->
       (match write_icc (unhex hx) with
        | None -> print_endline "err"
